@@ -19,7 +19,7 @@ RULE = ('one descriptor = (device profile, api sync/async, trigger kind in {link
         'signature) among runs in which the trigger actually fired.')
 ASSUMPTIONS = ['link errors are reported the two ways RadioDriver does: from its own thread, or from inside send_packet '
                'in the calling thread', 'virtual-time horizon of 150 s per blocking call stands in for "bounded time"']
-REQUIRED = ['mon.runs_with_the_link_ending_around_the_packet_that_completes_the_set_up', 'mon.change_notifications_during_the_value_download', 'mon.stale_item_answers_right_in_front_of_the_table_info_answer', 'mon.reconnects_issued_at_once_from_the_failure_notification', 'mon.attempts_with_duplicated_answers', 'mon.close_in_a_port_or_parameter_callback_of_the_application', 'mon.attempts', 'mon.trigger_fired', 'mon.reconnects', 'mon.fault_before_first_packet',
+REQUIRED = ['mon.reconnects_at_once_while_application_threads_stream_setpoints', 'mon.runs_with_the_link_ending_around_the_packet_that_completes_the_set_up', 'mon.change_notifications_during_the_value_download', 'mon.stale_item_answers_right_in_front_of_the_table_info_answer', 'mon.reconnects_issued_at_once_from_the_failure_notification', 'mon.attempts_with_duplicated_answers', 'mon.close_in_a_port_or_parameter_callback_of_the_application', 'mon.attempts', 'mon.trigger_fired', 'mon.reconnects', 'mon.fault_before_first_packet',
             'mon.fault_mid_setup', 'mon.fault_after_connected', 'mon.close_in_callback', 'mon.sync_api', 'mon.async_api',
             'mon.line_preempted_runs', 'mon.three_cycle_histories', 'mon.fault_during_driver_connect']
 DESC_TIMEOUT = 1500
@@ -73,7 +73,7 @@ def cases(tier, seed):
             for (pol, lp) in (scheds if tier == 'thorough' else scheds[:2]):
                 n += 1
                 out.append({'part': 'autoreconnect', 'seed': seed * 1000003 + n, 'nlog': nlog, 'nparam': nparam, 'proto': proto, 'mems': mk,
-                            'reporter': reporter, 'sched': pol, 'line_p': lp, 'resend': n % 3 == 0, 'kmax': 10})
+                            'reporter': reporter, 'sched': pol, 'line_p': lp, 'resend': n % 3 == 0, 'kmax': 10, 'stream': n % 2 == 0})
     return out
 
 
@@ -607,9 +607,30 @@ def run_autoreconnect(desc, ctx):
                     th.start()
                 spec.fail_after_tx = k
                 spec.fail_reporter = desc['reporter']
+                if desc.get('stream'):
+                    spec.fail_send_blocks = (0.0, 0.5, 2.0)[(desc['seed'] + k) % 3]
                 cf.open_link(uri)
+                stop = {'on': False}
+                streamers = []
+                if desc.get('stream'):
+                    # application threads that stream setpoints all the time (they contend for the link with the library's own
+                    # senders; the transmission that fails may be one of theirs)
+                    def streamer():
+                        while not stop['on']:
+                            try:
+                                cf.commander.send_setpoint(0.0, 0.0, 0.0, 0)
+                                ob['streamed'] = ob.get('streamed', 0) + 1
+                            except Exception as e:  # noqa
+                                ob.setdefault('stream_exc', repr(e)[:200])
+                            s.sleep(0.003)
+                    streamers = [threading.Thread(target=streamer) for _ in range(2)]
+                    for t_ in streamers:
+                        t_.start()
                 full.wait(200.0)
                 s.sleep(2.0)
+                stop['on'] = True
+                for t_ in streamers:
+                    t_.join()
                 ob['faults'] = spec.faults_fired
                 ob['link_open'] = cf.link is not None
                 ob['state'] = str(cf.state)
@@ -622,9 +643,18 @@ def run_autoreconnect(desc, ctx):
                                                max_steps=12_000_000)
             ctx.evals()
             rp = dict(desc, only_k=k)
+            if abort is not None and not ob.get('faults') and spec.faults_fired:
+                # the run never got as far as noting that the fault had fired: it hung after the fault
+                ctx.violate('R9:reconnect-at-once:hang', {'k': k, 'reporter': desc['reporter'], 'reconnect_from': way, 'events': [e[0] for e in ob['ev']][:16],
+                                                          'abort': str(abort), 'threads': getattr(abort, 'table', None)}, replay=rp)
+                continue
             if not ob.get('faults'):
                 continue
             ctx.count('mon.reconnects_issued_at_once_from_the_failure_notification')
+            if ob.get('streamed'):
+                ctx.count('mon.reconnects_at_once_while_application_threads_stream_setpoints')
+            if ob.get('stream_exc'):
+                ctx.violate('R8:setpoint-sender-got-an-exception', {'error': ob['stream_exc'], 'k': k}, replay=rp)
             names = [e[0] for e in ob['ev']]
             info = {'k': k, 'reporter': desc['reporter'], 'reconnect_from': way, 'events': names[:16]}
             ctx.nontrivial(('autoreconnect', k, way, desc['reporter'], tuple(names), sch.signature()))
